@@ -8,6 +8,18 @@ DBL_MAX_BITS = 0x7fefffffffffffff
 
 def hostile_double(rng, finite=True):
     r = rng.random()
+    if r < 0.06:
+        # decade and binade boundaries, +- a few ulps
+        if rng.random() < 0.5:
+            x = float('1e%d' % rng.randrange(-25, 26))
+        else:
+            x = 2.0 ** rng.randrange(-60, 70)
+        x = b2d(d2b(x) + rng.choice([-2, -1, 0, 0, 1, 2]))
+        return -x if rng.random() < 0.3 else x
+    if r < 0.09:
+        # the int range seen from both sides, with fractions
+        base = rng.choice([2147483647, -2147483648, 2147483646, -2147483647, 0, 1, -1])
+        return base + rng.choice([-0.5, 0.5, -0.25, 0.75, 1e-9, -1e-9, 0.9999999, -0.9999999])
     if r < 0.18:
         return float(rng.choice([0, 1, -1, 2, 7, 10, 100, 255, 256, 65535, 2147483647, 2147483646, -2147483648, -2147483647,
                                  2147483648, -2147483649, 4294967295, 4294967296, 999999999999999, 1000000000000000,
